@@ -188,7 +188,7 @@ def _run_job(name):
 
 # ------------------------------------------------------------------------------------------------
 def run(prop, tier, logdir, only=None):
-    from . import e2_jobs  # noqa: F401  (registers jobs)
+    from . import e2_jobs, e2_validate  # noqa: F401  (register jobs)
     tiers = ("quick",) if tier == "quick" else ("quick", "thorough")
     todo = [j for j in JOBS.values() if prop in j["props"] and j["tier"] in tiers]
     if only:
